@@ -25,6 +25,8 @@ def run(ctx):
         "each injected event runs to quiescence (testing/synctest) before the next; the one finer-grain interleaving explored is a "
         "want-reply request whose writePacket is held by the transport (c35conn write gate) while 0..n peer replies / pings arrive, "
         "then released; other races inside one step are not explored",
+        "bursts (packets queued together, handled by the read loop before any local goroutine runs) are limited to kinds whose outcome "
+        "in the model does not depend on goroutine scheduling: open confirmation / failure, data, EOF, ping",
         "the application services both request streams and never starts two want-reply requests on one gate at once",
     ]
     if ctx.replay:
@@ -37,7 +39,7 @@ def run(ctx):
         ctx.absorb(ctx.go_test("c36", "TestReplay$", cases=[case], timeout=600))
         return
     q = not ctx.thorough
-    mcs = [("Q", 900), ("QLite", 900), ("HoldQ", 900)] if q else [("Q", 900), ("T", 1500), ("T31", 1500), ("T32", 1800), ("TLite", 2400), ("HoldQ", 900), ("HoldT", 2400)]
+    mcs = [("Q", 900), ("QLite", 900), ("HoldQ", 900), ("BurstQ", 900)] if q else [("Q", 900), ("T", 1500), ("T31", 1500), ("T32", 1800), ("TLite", 2400), ("HoldQ", 900), ("HoldT", 2400), ("BurstQ", 900), ("BurstT", 2400)]
     for name, to in mcs:
         r = ctx.tlc_must_hold("SSHMux_MC", cfg="SSHMux_%s.cfg" % name, timeout=to)
         ctx.log("TLC %s: %d generated, %d distinct, %.0fs" % (name, r.generated, r.distinct, r.wall))
@@ -49,6 +51,9 @@ def run(ctx):
         # a design that drains only one buffered reply before a new request must violate M1 (sensitivity of the finer-grain model)
         r = ctx.tlc("SSHMux_MC", cfg="SSHMux_HoldDrainOne.cfg", timeout=1500, expect_violation=True, count=False)
         ctx.notes.append("DrainAll=FALSE variant: TLC reports %s" % (("violation of " + str(r.violated)) if r.violated else "no violation"))
+        # a design in which the OpenChannel goroutine (not the read loop) sets `decided` must violate M_dup
+        r = ctx.tlc("SSHMux_MC", cfg="SSHMux_BurstOpenerDecides.cfg", timeout=900, expect_violation=True, count=False)
+        ctx.notes.append("DecidedInLoop=FALSE variant: TLC reports %s" % (("violation of " + str(r.violated)) if r.violated else "no violation"))
     gens = [("GenQ", None, None), ("GenHoldQ", None, None)] if q else [("GenT", None, None), ("GenTLite", None, None), ("GenHoldT", None, None)]
     gens.append(("Sim", ctx.pick(250, 3000), 12))
     if ctx.thorough:
@@ -67,6 +72,21 @@ def run(ctx):
             res = ctx.go_test("c36", "TestReplay$", cases=pending, timeout=2400)
             ctx.absorb(res)
             pending = []
+    # bursts: 2..3 peer packets queued on the transport together, so that the read loop handles all of them before the
+    # goroutine blocked in OpenChannel runs again (GOMAXPROCS=1 makes the Go scheduler keep the loop running until it blocks;
+    # the predictions themselves do not depend on the schedule)
+    r = ctx.tlc_must_hold("SSHMux_MC", cfg="SSHMux_%s.cfg" % ("GenBurstQ" if q else "GenBurstT"), workers=1, timeout=2400, count=False)
+    if not r.traces:
+        raise vlib.Infra("burst generator produced no histories")
+    ctx.log("burst histories: %d (%.0fs)" % (len(r.traces), r.wall))
+    total += len(r.traces)
+    res = ctx.go_test("c36", "TestReplay$", cases=r.traces, timeout=2400, env={"GOMAXPROCS": "1"})
+    ctx.absorb(res)
+    nb = res.get("extra", {}).get("duplicate_response_bursts_replayed", 0)
+    nf = res.get("extra", {}).get("duplicate_response_bursts_loop_first", 0)
+    if not res.get("violations") and (nb == 0 or nf == 0):
+        raise vlib.Infra("vacuous: no back-to-back duplicate open-response burst was replayed with the read loop ahead of the opener "
+                         "(replayed=%d, loop first=%d)" % (nb, nf))
     ctx.extra["histories_replayed"] = total
 
     # exploration: grammar-based random long sequences, no model prediction
